@@ -7,9 +7,27 @@ CHECKS = {
  "C01": dict(engine="array", ref="5 C01, 3.4",
    text="Layer A (ArraySeq.tla: the array as a plain sequence) and layer C (ArrayTree.tla: the slab-tree algorithm transcribed over element sizes) are model-checked together: in every reachable shape the tree flattens to the sequence, both routing procedures agree, reads agree. Every transition of that state graph (every insert/set/remove/get/pop position, including out-of-range requests) and TLC-simulated grow/churn/shrink walks at several slab sizes are replayed into the real Array; every recorded call must be explained by the sequence model (returned / previous element, count, type, root id, error class) and the projected slab forest must flatten to the model sequence.",
    note="bounded: all shapes up to 5 (quick) / 7 (thorough) elements over 4 value sizes at slab 256; walks of 200-900 operations at slab 256/257/512/1024; elements are id-carrying strings of exact encoded size"),
+ "C02": dict(engine="map", ref="5 C02, 3.5",
+   text="MapDict.tla (dictionary with a caller-chosen 4-level digest assignment) and MapTree.tla (element-level algorithm: sorted digests, single -> inline group -> external group -> collapse) are model-checked together for EVERY digest assignment over {0,1}^4 of 3 keys: lookups, enumeration order and refusals of the structure equal the dictionary's. Every transition of that graph and TLC-simulated grow/churn/shrink walks over 24-60 keys (spread and clustered digests, several slab sizes, so that slabs split, merge and promote in the real code) are replayed into the real OrderedMap through a table-driven DigesterBuilder; each call must be explained by the dictionary model and the observed slab forest must hold exactly the dictionary's pairs.",
+   note="slab-level map algorithm (split/merge of map slabs) is not transcribed in layer C: slab-level behaviour is judged by layers A and B on the real traces only; values/keys are id-carrying strings"),
+ "C03": dict(engine="persist", ref="5 C03, 3.8",
+   text="Storage level: SlabStorage.tla closure with BaseOnlyInCommit, TempNeverWritten, CommitOK, DropReverts; explored histories replayed with commit/recreate/retrieve events strict. Container level: TLC explores array histories with every placement of commit / drop-cache / crash between operations (all shapes up to 3-4 elements) and simulates array and map walks with such events; in the recorded traces, after every successful commit a brand-new storage over a copy of the ledger must reconstruct exactly the model content from the registers alone (Durable), the ledger call counter must not move outside commits (NoLedgerWrite), no call may carry the zero address, and a crash must restore the last committed content (CrashRestores).",
+   note="crash = abandon the storage object and reopen every root by id over the ledger; crash points are between operations and before/after commits (not inside a commit); bounded as stated"),
+ "C04": dict(engine="persist", ref="5 C04",
+   text="DetOrder is an invariant of SlabStorage.tla (closure) and of every recorded commit (storage and container traces): deterministic commits issue calls in strictly ascending (owner, index). Multi-run acceptor (MultiRunTrace.tla): each TLC-simulated history is executed with 1/2/7/64 workers, both commit kinds, in fresh processes with different GOMAXPROCS; all runs of a history must end with byte-identical registers under identical identifiers.",
+   note="goroutine interleavings of the encoder workers are explored exhaustively only in the CommitConc model of C16; here they vary by worker count / GOMAXPROCS / process"),
  "C05": dict(engine="array", ref="5 C05, 3.1, 3.6",
    text="Thresholds.tla: the arithmetic lemmas behind the size band (two maximal elements fit, an index slab that does not underflow has two children, merge bound, 16-bit header sizes) are checked by TLC for every legal slab size 256..32768. ArrayTree.tla preserves well-formedness in every reachable shape. TreeInv.tla (size band, element limits, root index slab >= 2 children, header copies, count sums, sibling links) is evaluated by TLC on the forest projected from the real slabs after EVERY replayed operation; content is adopted so only structural facts are judged.",
    note="map half of the property is covered by the map engine when present; projection reads slab fields through verif-tagged exports; bounded as C01"),
+ "C07": dict(engine="persist", ref="5 C07",
+   text="At every commit point of TLC-explored array histories (all shapes up to 3-4 elements x persistence events) and of simulated array / map walks, every register is decoded by a brand-new storage and projected; the cold forest (elements in order, sizes, counts, type info, seeds, sibling links, header copies, collision groups) must EQUAL the forest of the in-memory slabs that produced the registers (ColdEqualsWarm) and satisfy TreeInv.",
+   note="re-encoding equality and header flags are covered by the byte-level stage when present in evidence; compact-map exception does not arise with the simple type infos used here"),
+ "C08": dict(engine="persist", ref="5 C08",
+   text="Commit, DropCache and reopen are stuttering steps of the abstract model; the multi-run acceptor executes each TLC-simulated history (arrays and maps, including reads and rejected requests) under five schedules from 'commit only at the end' to 'commit after every operation', with cache drops and reopenings at random points, and requires identical per-operation results, identical final content and byte-identical final registers.",
+   note="only root handles are kept across cache drops (handle-tree discipline, DESIGN 4.2); no composite type infos here so registers must be byte-identical"),
+ "C12": dict(engine="map", ref="5 C12",
+   text="TLC explores, for every digest assignment over {0,1}^4 of 3 keys and collision limits 0, 1, 2, 255, all insert/update/remove histories to closure, checking that the element algorithm refuses exactly the inserts the layer-A rule refuses and changes nothing then. Every explored transition is replayed into the real OrderedMap with a table-driven digester and the limit set through the verif hook; dictionary semantics, refusal rule, unchanged-on-refusal and TreeInv (sorted unique digests per level, group sizes, level-1 spill, element limit) are validated after every step; clustered-digest walks over 24 keys add spill/collapse across slab boundaries.",
+   note="exhaustive for 3 keys x {0,1}^4 in thorough tier, sampled in quick; limit 255 with 257 keys is not enumerated"),
  "C14": dict(engine="storage", ref="5 C14, 3.2",
    text="SlabStorage.tla splits both commits into one action per ledger call, each of which may fail; TLC explores every fault position to closure over a 3-identifier universe and proves CommitFailedLosesNothing / CommitOK (ledger = view at commit start) / ViewStable. Every explored history with a failing call is replayed with the same fault placement into the real PersistentSlabStorage and the recorded per-call trace is validated by TLC (commit events strict). Random histories with faults and retries on a larger universe are validated the same way.",
    note="LedgerSim failing calls have no effect; slab payloads are opaque versions; bounded: 3-4 identifiers, 2-3 versions, 1 fault per model history (up to 3 in random drivers); container-level fault histories are covered by the persist engine"),
@@ -52,6 +70,8 @@ def main():
         },
         "engines": [
             {"name": "array", "path": "spec/ArraySeq.tla spec/ArrayTree.tla spec/TreeInv.tla spec/Thresholds.tla spec/MC_Array.tla spec/ArrayTrace.tla harness/world.go harness/ops.go harness/array_engine.go", "serves_properties": ["C01", "C05", "C06", "C09", "C13", "C17", "C18"], "kind_free_text": "TLC state graph + simulated walks of the array algorithm replayed into the real Array; traces validated against sequence semantics and TreeInv"},
+            {"name": "map", "path": "spec/MapDict.tla spec/MapTree.tla spec/MC_Map.tla spec/MC_MapWalk.tla spec/MapTrace.tla harness/map_engine.go harness/digest.go", "serves_properties": ["C02", "C05", "C06", "C09", "C12", "C13", "C17", "C18"], "kind_free_text": "all digest assignments x histories (TLC) + simulated walks replayed into the real OrderedMap with a table-driven digester"},
+            {"name": "persist", "path": "spec/ArrayTrace.tla spec/MapTrace.tla spec/MultiRunTrace.tla harness/multirun.go", "serves_properties": ["C03", "C04", "C07", "C08", "C14"], "kind_free_text": "commit / drop-cache / crash events inside container histories with cold reads of the ledger; multi-run acceptor"},
             {"name": "storage", "path": "spec/SlabStorage.tla spec/MC_SlabStorage.tla spec/SlabStorageTrace.tla harness/storage_engine.go", "serves_properties": ["C03", "C04", "C14", "C15"], "kind_free_text": "TLC closure + edge replay + trace validation of PersistentSlabStorage"},
         ],
         "checks": checks,
